@@ -79,6 +79,18 @@ def canary_foreign_failure(traces):
                 return c, 'a request whose own transaction the downstream accepted throughout reported as failed'
 
 
+def canary_count(traces):
+    for tr in traces:
+        if tr.get('cfg', {}).get('kind') != 'deque':
+            continue
+        for j, e in enumerate(tr['ev']):
+            if e['t'] == 'op' and e['op'] == 'remove' and e['res'] == 'ok':
+                c = copy.deepcopy(tr)
+                for k in range(j, len(c['ev'])):
+                    c['ev'][k]['count'] += 1
+                return c, 'the semaphore count not lowered by remove(): one more than the deque holds from then on'
+
+
 def run(tier):
     wd = workdir('C19')
     q = tier == 'quick'
@@ -137,9 +149,31 @@ CHECK_DEADLOCK FALSE
                'cfg': flow.write_cfg(wd, 'hc_kf13.cfg', HC_CFG % ('TRUE', 'TRUE', 'FALSE')), 'expect_violation': ['temporal']})
     mc.append({'name': 'deviation KF_BodyNeverRead (D29 as found): TLC must find the accepted request reported as failed', 'module': 'HttpClient',
                'cfg': flow.write_cfg(wd, 'hc_kf29.cfg', HC_CFG % ('TRUE', 'FALSE', 'TRUE')), 'expect_violation': ['C19_NoForeignFailure']})
+    # the request queue itself: slimta/util/deque.py ("semaphore count equals deque length")
+    BD_CFG = """SPECIFICATION FairSpec
+CONSTANTS
+  Procs = {p1, p2, p3}
+  Vals = {a, b}
+  MaxLen = %d
+  KF_RemoveKeepsCount = %s
+  KF_ExtendOneRelease = %s
+INVARIANT C19_CountIsLength
+INVARIANT C19_NoEmptyPop
+INVARIANT C19_NoStrandedWaiter
+PROPERTY C19_WaitersServed
+CHECK_DEADLOCK FALSE
+"""
+    mc.append({'name': 'BlockingDeque: three greenlets, every interleaving of append / appendleft / extend / extendleft / pop / popleft '
+                       '(blocking, barging, wake-up, wait given up) / remove / clear, at most %d items' % (3 if q else 4), 'module': 'BlockingDeque',
+               'cfg': flow.write_cfg(wd, 'bd.cfg', BD_CFG % (3 if q else 4, 'FALSE', 'FALSE'))})
+    mc.append({'name': 'deviation KF_RemoveKeepsCount: TLC must find the count that exceeds the length', 'module': 'BlockingDeque',
+               'cfg': flow.write_cfg(wd, 'bd_kf1.cfg', BD_CFG % (3, 'TRUE', 'FALSE')), 'expect_violation': ['C19_CountIsLength', 'C19_NoEmptyPop']})
+    mc.append({'name': 'deviation KF_ExtendOneRelease: TLC must find the items nobody is woken for', 'module': 'BlockingDeque',
+               'cfg': flow.write_cfg(wd, 'bd_kf2.cfg', BD_CFG % (3, 'FALSE', 'TRUE')), 'expect_violation': ['C19_CountIsLength', 'C19_NoStrandedWaiter']})
     return flow.standard(
         'C19', tier, mc, 'c19', 'Trace_Pool', 'Trace_Pool.cfg', [canary_bound, canary_other_result, canary_stranded, canary_foreign_failure],
-        extras=[{'driver': 'c11m', 'module': 'Trace_Pool', 'cfg': 'Trace_Pool.cfg', 'args': (behfile,)}],
+        extras=[{'driver': 'c11m', 'module': 'Trace_Pool', 'cfg': 'Trace_Pool.cfg', 'args': (behfile,)},
+                {'driver': 'c19q', 'module': 'Trace_Deque', 'cfg': 'Trace_Deque.cfg', 'canaries': [canary_count]}],
         extra_cov={'model_replay': infos},
         level='model_checking',
         rule='2-4 attempt() calls staggered by eight call/settle/advance schedules through the real StaticSmtpRelay / '
